@@ -36,9 +36,9 @@ pub fn fill(side: Side, price: Decimal, quantity: Decimal, fee: Decimal, t: Date
 pub fn any_position(side: Side, bits: u32, dmax: u8) -> Pos {
     let quantity_abs = dec_pos(bits);
     let quantity_abs_max = dec_pos(bits);
-    kani::assume(quantity_abs_max >= quantity_abs);
+    assume(quantity_abs_max >= quantity_abs);
     let price_entry_average = dec_q(bits, dmax);
-    kani::assume(price_entry_average > Decimal::ZERO);
+    assume(price_entry_average > Decimal::ZERO);
     let mut trades = Vec::with_capacity(3);
     trades.push(TradeId::new("t1"));
     Position {
@@ -170,9 +170,9 @@ fn run_step(pre_side: Option<Side>, fill_side: Side, arm: u8, bits: u32, dmax: u
     let trade = fill(fill_side, dec_pos(bits), dec_pos(bits), dec_u(bits), time_at(3), 0);
     if let Some(p) = &pre {
         match arm {
-            1 => kani::assume(trade.quantity < p.q),
-            2 => kani::assume(trade.quantity == p.q),
-            3 => kani::assume(trade.quantity > p.q),
+            1 => assume(trade.quantity < p.q),
+            2 => assume(trade.quantity == p.q),
+            3 => assume(trade.quantity > p.q),
             _ => {}
         }
     }
@@ -227,10 +227,10 @@ step!(c02_t_short_buy_flip, Some(Side::Sell), Side::Buy, 3, 3, 2);
 proof! {
     #[kani::unwind(26)]
     fn c02_q_other_instrument() {
-        let side = if kani::any() { Side::Buy } else { Side::Sell };
+        let side = if any_bool() { Side::Buy } else { Side::Sell };
         let pre_pos = any_position(side, 2, 1);
         let snapshot = pre_pos.clone();
-        let trade = fill(if kani::any() { Side::Buy } else { Side::Sell }, dec_pos(2), dec_pos(2), dec_u(2), time_at(3), 1);
+        let trade = fill(if any_bool() { Side::Buy } else { Side::Sell }, dec_pos(2), dec_pos(2), dec_u(2), time_at(3), 1);
         let mut pm = PositionManager { current: Some(pre_pos) };
         let closed = pm.update_from_trade(&trade);
         assert!(closed.is_none(), "C02: fill of another instrument closed the position");
